@@ -245,6 +245,11 @@ func handle(c *core.Ctx, l *Line, src string, st *Stats) error {
 		c.Hit("deviation")
 		return nil
 	}
+	if len(l.Dev) > 0 && expClass(l.Dev[0]) == "skip" {
+		// under the open deviations the text is tokenised differently: not decidable at the token level
+		st.add(l.Fam, 3)
+		return nil
+	}
 	g, _ := json.Marshal(got)
 	detail := fmt.Sprintf("[%s/%s] %q  =>  parser %s ; specification %s", l.Fam, l.Tag, src, trunc(string(g), 400), trunc(string(l.Exp), 400))
 	if out.C == "reject" {
